@@ -102,6 +102,33 @@ pub fn replay_line(st: &mut Stats, opts: &CoreOpts, idx: usize, line: &Value) {
                 let (_, b) = via_binary(&scn_f, v, Some(rng.next()));
                 check(st, opts, line, conc, &format!("binary/v{v}-permuted+flags"), &b, &enc::restrict(&exp_f, v), &focus);
             }
+            // a file whose record names a term the file does not define describes no ontology: the loader may refuse it
+            // (it does), but it must never hand out an ontology in which an id does not resolve (C02 "every id on either side resolves")
+            if opts.prop == "C02" {
+                if let Some(f0) = scn.facts.iter().find(|f| f.term.is_some()) {
+                    let absent = [4242u32, 5_555_555, 77].into_iter().find(|x| !scn.terms.iter().any(|t| t.id == *x)).unwrap_or(9_000_001);
+                    let mut scn_d = scn.clone();
+                    scn_d.facts.push(Fact { kind: f0.kind, x: f0.x, name: f0.name.clone(), term: Some(absent) });
+                    let bytes = enc::encode(&enc::abstract_of_ordered(&scn_d, false), 3);
+                    if let Ok(Ok(ont)) = catch(|| hpo::Ontology::from_bytes(&bytes)) {
+                        use hpo::annotations::Disease;
+                        let mut bad: Vec<String> = vec![];
+                        for g in ont.genes() {
+                            bad.extend(g.hpo_terms().iter().filter(|t| ont.hpo(*t).is_none()).map(|t| format!("gene {} lists {t}", g.id())));
+                        }
+                        for g in ont.omim_diseases() {
+                            bad.extend(g.hpo_terms().iter().filter(|t| ont.hpo(*t).is_none()).map(|t| format!("OMIM disease {} lists {t}", g.id())));
+                        }
+                        for g in ont.orpha_diseases() {
+                            bad.extend(g.hpo_terms().iter().filter(|t| ont.hpo(*t).is_none()).map(|t| format!("ORPHA disease {} lists {t}", g.id())));
+                        }
+                        if !bad.is_empty() && st.violations.len() < 8 {
+                            let what = format!("[{}] from_bytes accepted a v3 file in which a record names the undefined term {absent}; the ontology hands out ids that do not resolve: {}", conc.name, bad[0]);
+                            st.violations.push(Violation { property: opts.prop.clone(), what: what.clone(), replay: json!({"cmd": "replay-core", "property": opts.prop, "seed": opts.seed, "line": line, "conc": conc.to_json(), "diffs": [what]}) });
+                        }
+                    }
+                }
+            }
             if !only_records && opts.jax_every > 0 && (idx as u64) % opts.jax_every == 0 {
                 let files = jax_plain(&scn, None);
                 check(st, opts, line, conc, "jax/from_standard", &via_jax(&files, false), &expd, &focus);
@@ -111,6 +138,98 @@ pub fn replay_line(st: &mut Stats, opts: &CoreOpts, idx: usize, line: &Value) {
                 check(st, opts, line, conc, "jax/from_standard_transitive+flags", &via_jax(&files, true), &expfd, &focus);
             }
         }
+    }
+}
+
+/// Beyond TLC's scope: an ontology of more than 65,535 terms (the width of a u16).  The statement of C01 is size
+/// independent - the reported ancestors of a term are exactly the transitive closure of the reported direct parents, the
+/// child relation is the inverse of the parent relation, every id resolves - so it is demanded of this ontology as it is.
+fn big_closure_case(st: &mut Stats, prop: &str) {
+    use hpo::builder::Builder;
+    use std::collections::{BTreeMap, BTreeSet};
+    st.cases += 1;
+    let n = 66_500u32;
+    let id_of = |i: u32| 200 + i * 7;
+    let r = catch(|| -> Result<Vec<String>, String> {
+        let mut b = Builder::new();
+        b.new_term("root", 1u32);
+        for i in 0..n {
+            b.new_term(&format!("T{i}"), id_of(i));
+        }
+        let mut b = b.terms_complete();
+        let mut parents: BTreeMap<u32, BTreeSet<u32>> = BTreeMap::new();
+        for i in 0..n {
+            // groups of 50: the head below the root and below the previous head, members below their head and their predecessor
+            let head = i - i % 50;
+            let ps: Vec<u32> = if i == head { if head == 0 { vec![1] } else { vec![1, id_of(head - 50)] } } else { vec![id_of(head), id_of(i - 1)] };
+            for p in ps {
+                b.add_parent(p, id_of(i)).map_err(|e| format!("add_parent({p}, {}) failed: {e}", id_of(i)))?;
+                parents.entry(id_of(i)).or_default().insert(p);
+            }
+        }
+        let ont = b.connect_all_terms().calculate_information_content().map_err(|e| e.to_string())?.build_minimal();
+        let mut d = vec![];
+        if ont.len() != n as usize + 1 {
+            d.push(format!("len() = {} for {} added terms", ont.len(), n + 1));
+        }
+        // closure over the REPORTED direct parents, memoised in group order
+        let mut closure: BTreeMap<u32, BTreeSet<u32>> = BTreeMap::new();
+        closure.insert(1, BTreeSet::new());
+        for i in 0..n {
+            let id = id_of(i);
+            let Some(t) = ont.hpo(id) else {
+                d.push(format!("hpo({id}) returns None although the term was added (insertion #{})", i + 2));
+                break;
+            };
+            let rep: BTreeSet<u32> = t.parent_ids().iter().map(|x| hpo::annotations::AnnotationId::as_u32(&x)).collect();
+            if Some(&rep) != parents.get(&id) {
+                d.push(format!("term {id}: parent_ids {:?}, it was linked to {:?}", rep, parents.get(&id)));
+                break;
+            }
+            let mut want = rep.clone();
+            for p in &rep {
+                match closure.get(p) {
+                    Some(c) => want.extend(c.iter().copied()),
+                    None => d.push(format!("term {id}: parent {p} was not seen before")),
+                }
+            }
+            let got: BTreeSet<u32> = t.all_parent_ids().iter().map(|x| hpo::annotations::AnnotationId::as_u32(&x)).collect();
+            if got != want {
+                d.push(format!("term {id} (insertion #{}): all_parent_ids has {} ids, the transitive closure of its direct parents has {} (first difference {:?})", i + 2, got.len(), want.len(), got.symmetric_difference(&want).next()));
+                break;
+            }
+            // every id resolves, and the child relation is the inverse
+            for p in &rep {
+                match ont.hpo(*p) {
+                    Some(pt) if pt.children_ids().contains(&id.into()) => {}
+                    Some(_) => {
+                        d.push(format!("term {p} does not list its child {id}"));
+                    }
+                    None => d.push(format!("parent {p} of term {id} does not resolve")),
+                }
+            }
+            if d.len() > 4 {
+                break;
+            }
+            // keep memory bounded: only heads are needed later
+            if i % 50 == 49 {
+                let head = id_of(i - 49);
+                let keep = want.clone();
+                closure.retain(|k, _| *k == 1 || *k == head);
+                let _ = keep;
+            }
+            closure.insert(id, want);
+        }
+        Ok(d)
+    });
+    st.evaluations += n as u64;
+    let d = match r {
+        Ok(Ok(d)) => d,
+        Ok(Err(e)) => vec![format!("an ontology of {} terms cannot be built: {e}", n + 1)],
+        Err(p) => vec![format!("an ontology of {} terms: panic {p}", n + 1)],
+    };
+    if !d.is_empty() {
+        st.violations.push(Violation { property: prop.into(), what: d[0].clone(), replay: json!({"cmd": "replay-core", "property": prop, "big_closure": true, "diffs": d}) });
     }
 }
 
@@ -203,6 +322,9 @@ pub fn run(args: &Args) {
     if shard.0 == 0 && opts.prop == "C03" {
         big_ic_case(&mut stats, "C03");
     }
+    if shard.0 == shard.1 / 2 && opts.prop == "C01" {
+        big_closure_case(&mut stats, "C01");
+    }
     let extra = json!({"lines": lines.len(), "distinct_lines": distinct.len(), "shard_wall_s_max": t.secs()});
     finish(stats, args.req("out"), args.req("replay-dir"), extra);
 }
@@ -218,7 +340,9 @@ pub fn replay_one(v: &Value) -> bool {
         concs: vec![],
     };
     let mut st = Stats::default();
-    if v.get("big").is_some() {
+    if v.get("big_closure").is_some() {
+        big_closure_case(&mut st, "C01");
+    } else if v.get("big").is_some() {
         big_ic_case(&mut st, "C03");
     } else {
         guard_case(&mut st, &opts.prop.clone(), "replay-core", &v["line"], |st| replay_line(st, &opts, 0, &v["line"]));
